@@ -351,3 +351,68 @@ func feedGoroutines() int {
 	buf = buf[:runtime.Stack(buf, true)]
 	return strings.Count(string(buf), "rosmar.(*dcpFeed).run(")
 }
+
+// QueuedTerminator: a feed with many events still queued has its terminator closed while its callback is parked
+// on the first event. After the callback returns the feed must end without working through the queue.
+func QueuedTerminator(tmp string, disk bool, kind int, docs int) (callsAfter int, msg string) {
+	name := fmt.Sprintf("qt%d_%d", os.Getpid(), feedSerial.Add(1))
+	url, dir := rosmar.InMemoryURL, ""
+	if disk {
+		dir = filepath.Join(tmp, name)
+		url = "rosmar://" + dir
+	}
+	ctx := context.Background()
+	b, err := rosmar.OpenBucket(url, name, rosmar.CreateNew)
+	if err != nil {
+		return 0, "setup|" + err.Error()
+	}
+	defer func() {
+		func() { defer func() { _ = recover() }(); _ = b.CloseAndDelete(ctx) }()
+		if dir != "" {
+			_ = os.RemoveAll(dir)
+		}
+	}()
+	col := b.DefaultDataStore().(*rosmar.Collection)
+	for i := 0; i < docs; i++ {
+		_ = col.SetRaw(fmt.Sprintf("d%d", i), 0, nil, []byte("x"))
+	}
+	term, done := make(chan bool), make(chan struct{})
+	first, release := make(chan struct{}), make(chan struct{})
+	var once sync.Once
+	var total, after atomic.Int64
+	var released atomic.Bool
+	args := sgbucket.FeedArguments{ID: "qt", Backfill: 0, Dump: kind == FDump, Terminator: term, DoneChan: done}
+	err = col.StartDCPFeed(ctx, args, func(e sgbucket.FeedEvent) bool {
+		if e.Opcode != sgbucket.FeedOpMutation {
+			return true
+		}
+		total.Add(1)
+		if released.Load() {
+			after.Add(1)
+		}
+		once.Do(func() { close(first); <-release })
+		return true
+	}, nil)
+	if err != nil {
+		return 0, "setup|" + err.Error()
+	}
+	select {
+	case <-first:
+	case <-time.After(feedBound):
+		return 0, "setup|the feed delivered nothing"
+	}
+	close(term)
+	time.Sleep(150 * time.Millisecond) // let the feed notice its terminator
+	released.Store(true)
+	close(release)
+	select {
+	case <-done:
+	case <-time.After(feedBound):
+		return int(after.Load()), fmt.Sprintf("not-ended|%s feed did not end within %s of its terminator closing (callback parked meanwhile)", feedKindNames[kind], feedBound)
+	}
+	time.Sleep(20 * time.Millisecond)
+	if n := after.Load(); n > 2 {
+		return int(n), fmt.Sprintf("callbacks-after-terminator|%s feed: the callback was invoked %d more times after the terminator had been closed (%d documents were queued)", feedKindNames[kind], n, docs)
+	}
+	return int(after.Load()), ""
+}
